@@ -18,6 +18,17 @@ TRUSTED = ['rustc nightly MIR dump', 'E2 translator / skeleton executor (calls u
            'the FIPS 204 call sequences transcribed in lib/skelsuite.py']
 
 
+def load_for(what, diff_load):
+    ns, nm = diff_load
+    if what == 'sign':
+        nm = max(nm, 300)
+    if what == 'keygen_search':
+        ns, nm = 20000, 0
+    if what == 'derive':
+        ns, nm = max(ns, 15000), 0      # directed search: a derivation defect typically needs a rare key (about 1 in 10^4)
+    return ns, nm
+
+
 def run_prop(run, scr, tier, seed, prop, e1=None, diff=(), diff_load=(2, 8), extra=None, only=None):
     sess = E2Session(run, scr, tier)
     sess.quiet_sat = True      # counterexamples of suite lemmas are confirmed through the differential native tests below
@@ -81,18 +92,12 @@ def run_prop(run, scr, tier, seed, prop, e1=None, diff=(), diff_load=(2, 8), ext
                     confirmed.append(('kernel', [f'{k[0]}{list(k[1])} = {v[0]} violates its FIPS 204 definition ({"release" if rel else "dev"})' for k, v in badc[:3]]))
                     break
         for what in diff:
-            ns, nm = diff_load
-            if what == 'sign':
-                nm = max(nm, 300)
-            if what == 'keygen_search':
-                ns, nm = 20000, 0
-            if what == 'derive':
-                ns, nm = max(ns, 15000), 0      # directed search: a derivation defect typically needs a rare key (about 1 in 10^4)
+            ns, nm = load_for(what, diff_load)
             oc, msgs = diffnative.run(scr, what, seed=seed + 1, n_seeds=ns, n_msgs=nm)
             run.add_query({'name': f'native differential `{what}` against the spec-literal reference ({ns} seeds x {nm} messages x 3 sets)', 'engine': 'native replay', 'verdict': 'holds' if oc == 'pass' else ('sat' if oc == 'fail' else 'unknown'), 'detail': msgs[:3]}, core=False)
             if oc == 'fail':
                 confirmed.append((what, msgs))
-        path = vlib.save_replay(prop, 'skeleton', {'property': prop, 'kind': 'diff', 'diff': list(diff), 'load': [max(diff_load[0], 15000) if list(diff) == ['derive'] else diff_load[0], max(diff_load[1], 300) if 'sign' in diff else diff_load[1]], 'seed': seed + 1,
+        path = vlib.save_replay(prop, 'skeleton', {'property': prop, 'kind': 'diff', 'diff': list(diff), 'load': list(diff_load), 'seed': seed + 1,
                                                    'mismatches': [{'name': m['name'], 'detail': m['detail']} for m in mism], 'confirmed': [(w, m[:4]) for w, m in confirmed],
                                                    'scalar_cases': [[n, list(a)] for n, a, _ in getattr(suite, 'scalar_cases', [])], 'codec': any(w == 'codec' for w, _ in confirmed)})
         if confirmed:
@@ -120,7 +125,8 @@ def replay_diff(prop, scr, path):
         if 'fail' in res8.values():
             bad = True
     for what in p['diff']:
-        oc, msgs = diffnative.run(scr, what, seed=p.get('seed', 1), n_seeds=p['load'][0], n_msgs=p['load'][1])
+        ns, nm = load_for(what, tuple(p['load']))
+        oc, msgs = diffnative.run(scr, what, seed=p.get('seed', 1), n_seeds=ns, n_msgs=nm)
         vlib.log(f'replay diff {what}: {oc} {msgs[:3]}')
         if oc == 'fail':
             bad = True
